@@ -189,6 +189,8 @@ def row_ok(E, row):
 
 
 def rows_ok(E, rows):
+    if isinstance(rows.len, int) and rows.len == 0:
+        return True
     return forall(1, lambda j: Implies(And(0 <= j, j < rows.len), row_ok(E, rows[j])))
 
 
@@ -263,6 +265,9 @@ def calc_facts(E, calc, l, r, s_l):
                   pats=lambda k: [calc.has(k)])
 
 
+SEARCH_CLAUSES = {}
+
+
 def _search_contract(variant, cap_shape, r0_def, extra_requires, extra_ensures, applies):
     def clauses(sel, r0):
         """ensures of search(); sel(E) = selected key, r0(E) = right end of the search window."""
@@ -280,7 +285,8 @@ def _search_contract(variant, cap_shape, r0_def, extra_requires, extra_ensures, 
                                            Or(And(br(A(E), B(E)), sel(E) == 0), EX(fid(E, sel(E)), Hmax(E)) < 0))),
             ("ghe-is-selection", lambda E: And(E.self.ghe.g_field == fid(E, sel(E)),
                                                E.self.ghe.bhe.b.H == If(And(unmet_(E), A(E) < 0), Hmin(E), Hmax(E)),
-                                               E.self.ghe.g_H0 == E.self.ghe.bhe.b.H)),
+                                               E.self.ghe.g_H0 == E.self.ghe.bhe.b.H,
+                                               E.self.ghe.g_cfg == CFG1(E, _dom(E)[sel(E)], E.self.ghe.bhe.b.H))),
             ("policy-too-small-loads", lambda E: Implies(And(cont(E), unmet_(E), A(E) < 0), sel(E) == 0)),
             ("policy-too-large-loads", lambda E: Implies(And(cont(E), unmet_(E), A(E) > 0), sel(E) == r0(E))),
             ("min-count-among-evaluated-feasible",
@@ -288,9 +294,8 @@ def _search_contract(variant, cap_shape, r0_def, extra_requires, extra_ensures, 
                                forall(1, lambda k: Implies(And(calc(E).has(k), calc(E)[k] < 0), cnt(E, sel(E)) <= cnt(E, k)),
                                       pats=lambda k: [calc(E).has(k)]))),
             ("evaluated-are-oracle-values",
-             lambda E: Implies(bisected(E),
-                               forall(1, lambda k: Implies(calc(E).has(k), And(0 <= k, k <= r0(E), calc(E)[k] == EX(fid(E, k), Hmax(E)))),
-                                      pats=lambda k: [calc(E).has(k)]))),
+             lambda E: forall(1, lambda k: Implies(calc(E).has(k), And(0 <= k, k <= r0(E), calc(E)[k] == EX(fid(E, k), Hmax(E)))),
+                              pats=lambda k: [calc(E).has(k)])),
             ("selection-evaluated-feasible", lambda E: Implies(bisected(E), And(calc(E).has(sel(E)), calc(E)[sel(E)] < 0))),
             ("search-log-rows-consistent", lambda E: rows_ok(E, E.self.searchTracker)),
             ("predecessor-evaluated-and-fails",
@@ -298,12 +303,13 @@ def _search_contract(variant, cap_shape, r0_def, extra_requires, extra_ensures, 
                                And(calc(E).has(sel(E) - 1), calc(E)[sel(E) - 1] > 0))),
         ] + [(n, (lambda E, f=f: f(E, sel))) for n, f in extra_ensures]
 
+    SEARCH_CLAUSES[variant] = (clauses, r0_def, extra_requires)
     unmet_v, ens_v = clauses(lambda E: E.result[0], lambda E: R0)
     unmet_c, ens_c = clauses(lambda E: E.result[0], lambda E: E.result[2])
     c = contract(
         f"{S}:Bisection1D.search", dict(self=B1(cap_shape)), name=f"{S}:Bisection1D.search#{variant}",
         requires=[
-            ("descriptors-aligned", lambda E: E.self.fieldDescriptors.len == _dom(E).len),
+            ("descriptors-cover-domain", lambda E: E.self.fieldDescriptors.len >= _dom(E).len),
             ("domain-size", lambda E: _dom(E).len <= 32768),
             ("counts-positive", lambda E: forall(1, lambda k: Implies(And(0 <= k, k < _dom(E).len), cnt(E, k) >= 1))),
             ("non-degenerate-excess", lambda E: ForAll([z3.Int("f!"), z3.Real("h!")], EX(z3.Int("f!"), z3.Real("h!")) != 0)),
@@ -333,9 +339,10 @@ def _search_contract(variant, cap_shape, r0_def, extra_requires, extra_ensures, 
             ),
         },
         raises={"ValueError": lambda E: And(Not(cont(E)), unmet_v(E))},
+        exc_ensures={"ValueError": [("search-log-rows-consistent", lambda E: rows_ok(E, E.self.searchTracker))]},
         ensures=ens_v,
         ensures_caller=ens_c + [("window-end", lambda E: r0_def(E, E.result[2]))],
-        assigns=[(lambda P: (P.self, "ghe"), GHEs()), (lambda P: (P.self, "searchTracker"), ListOf(FixedList([Str, Real, Real, Real]))),
+        assigns=[(lambda P: (P.self, "ghe"), GHEfresh()), (lambda P: (P.self, "searchTracker"), ListOf(Row)),
                  (lambda P: (P.self, "calculated_temperatures"), IntMapOf(Real))],
         returns=TupleOf(Int, Field, Int),
     )
@@ -515,3 +522,629 @@ def _search_from_model(inp):
 for _v in ("nocap", "cap"):
     native(f"{S}:Bisection1D.search#{_v}", _search_check, _search_gen, _search_from_model,
            bound="oracle-stubbed real search(): list lengths 1..64, monotone thresholds at every position and random sign patterns, distinct non-zero excess values, monotone and non-monotone counts, caps, both policies")
+
+
+# ---- Bisection1D.__init__ ---------------------------------------------------------------------------------
+def _ctor_frame(searched):
+    fields = dict(
+        load_years=OpaqueOf("list"), searchTracker=(ListOf(Row) if searched else FixedList([])), field_type=Str, V_flow=AliasOf(lambda P: P.v_flow),
+        flow_type=AliasOf(lambda P: P.flow_type), method=AliasOf(lambda P: P.method), log_time=OpaqueOf("list"),
+        bhe_type=AliasOf(lambda P: P.bhe_type), sim_params=AliasOf(lambda P: P.sim_params),
+        hourly_extraction_ground_loads=AliasOf(lambda P: P.hourly_extraction_ground_loads),
+        coordinates_domain=AliasOf(lambda P: P.coordinates_domain), fieldDescriptors=AliasOf(lambda P: P.field_descriptors),
+        max_iter=Const(15), disp=Const(False), calculated_temperatures=(IntMapOf(Real) if searched else EmptyMap()),
+        ghe=GHEs(sim=AliasOf(lambda P: P.sim_params), borehole=AliasOf(lambda P: P.borehole), fluid=AliasOf(lambda P: P.fluid)))
+    if searched:
+        fields.update(selection_key=Int, selected_coordinates=Field)
+    return [((lambda P, k=k: (P.self, k)), sh) for k, sh in fields.items()]
+
+
+class _View:
+    """present constructor-time names (self.coordinates_domain, ...) to the clause builders of search()"""
+
+
+def _init_params(cap_shape, search_flag):
+    return dict(self=ObjOf(f"{S}:Bisection1D"), coordinates_domain=ListOf(Field, minlen=1), field_descriptors=ListOf(Str), v_flow=Real,
+                borehole=Borehole(), bhe_type=Int, fluid=Fluid(), pipe=ObjOf("pipe"), grout=ObjOf("grout"), soil=ObjOf("soil"),
+                sim_params=SimP(cap_shape), hourly_extraction_ground_loads=OpaqueOf("list"), method=Int, flow_type=Int,
+                search=Const(search_flag))
+
+
+def _init_requires(variant):
+    _, _, extra = SEARCH_CLAUSES[variant]
+    dom = lambda E: E.coordinates_domain  # noqa: E731
+    reqs = [
+        ("descriptors-aligned", lambda E: E.field_descriptors.len == dom(E).len),
+        ("domain-size", lambda E: dom(E).len <= 32768),
+        ("counts-positive", lambda E: forall(1, lambda k: Implies(And(0 <= k, k < dom(E).len), dom(E)[k].len >= 1))),
+        ("non-degenerate-excess", lambda E: ForAll([z3.Int("f!"), z3.Real("h!")], EX(z3.Int("f!"), z3.Real("h!")) != 0)),
+        ("known-flow-type", lambda E: Or(E.flow_type == BOREHOLE_FLOW, E.flow_type == SYSTEM_FLOW)),
+    ]
+    if variant == "cap":
+        reqs.append(("smallest-field-below-cap", lambda E: dom(E)[0].len < E.sim_params.max_boreholes))
+    return reqs
+
+
+def _init_contract(variant, cap_shape):
+    clauses, r0_def, _ = SEARCH_CLAUSES[variant]
+
+    class _R:  # result view (selection_key, selected_coordinates, ghost r0) built from the object's fields
+        pass
+
+    def as_search_env(E):
+        """the postcondition of search() read on the constructed object"""
+        class V:
+            pass
+
+        v = V()
+        v.self = E.self
+        v.result = (E.self.selection_key, E.self.selected_coordinates, R0)
+        v.old = None
+        return v
+
+    unmet_, ens = clauses(lambda V: V.result[0], lambda V: R0)
+    c = contract(
+        f"{S}:Bisection1D.__init__", _init_params(cap_shape, True), name=f"{S}:Bisection1D.__init__#search-{variant}",
+        requires=_init_requires(variant),
+        defs=[("R0", lambda E: r0_def(_dom_view(E), R0))],
+        options={"empty_dict_is_intmap": True},
+        raises={"ValueError": lambda E: And(Not(E.sim_params.continue_if_design_unmet), unmet_(_dom_view(E)))},
+        ensures=[("fields", lambda E: And(E.self.max_iter == 15, E.self.flow_type == E.flow_type, E.self.V_flow == E.v_flow))]
+        + [(n, (lambda E, f=f: f(as_search_env(E)))) for n, f in ens],
+        assigns=_ctor_frame(True),
+        returns=NoneT(),
+    )
+    c.applies = lambda env: env.get("search") is True and (env["sim_params"].fields["max_boreholes"] is None) == (variant == "nocap")
+    return c
+
+
+def _dom_view(E):
+    """environment in which `self.coordinates_domain` etc. are the constructor arguments (before they are stored)"""
+    class V:
+        pass
+
+    class S_:
+        pass
+
+    v, s_ = V(), S_()
+    s_.coordinates_domain = E.coordinates_domain
+    s_.sim_params = E.sim_params
+    s_.calculated_temperatures = None
+    v.self = s_
+    return v
+
+
+_init_contract("nocap", NoneT())
+_init_contract("cap", Int)
+
+contract(f"{S}:Bisection1D.__init__", _init_params(Int, False), name=f"{S}:Bisection1D.__init__#nosearch",
+         requires=[("descriptors-aligned", lambda E: E.field_descriptors.len == E.coordinates_domain.len),
+                   ("counts-positive", lambda E: E.coordinates_domain[0].len >= 1),
+                   ("known-flow-type", lambda E: Or(E.flow_type == BOREHOLE_FLOW, E.flow_type == SYSTEM_FLOW))],
+         options={"empty_dict_is_intmap": True},
+         assigns=_ctor_frame(False),
+         ensures=[("fields", lambda E: And(E.self.max_iter == 15, E.self.flow_type == E.flow_type, E.self.V_flow == E.v_flow,
+                                           E.self.searchTracker.len == 0, E.self.calculated_temperatures.n == 0)),
+                  ("initial-ghe", lambda E: And(E.self.ghe.g_field == E.coordinates_domain[0].id, E.self.ghe.bhe.b.H == E.borehole.H))],
+         returns=NoneT()).applies = lambda env: env.get("search") is False
+
+
+# ---- Bisection2D.__init__ (bi-rectangle: outer search over the last field of every list, then inner search) ----
+Nested = ListOf(ListOf(Field, minlen=1), minlen=1)
+NestedStr = ListOf(ListOf(Str))
+
+
+def _nested_requires(E, cap):
+    nd, fd = E.coordinates_domain_nested, E.field_descriptors
+    reqs = [
+        ("descriptors-aligned", And(fd.len == nd.len, forall(1, lambda j: Implies(And(0 <= j, j < nd.len), fd[j].len == nd[j].len)))),
+        # the outer search indexes field_descriptors[0] with positions of the OUTER domain (one entry per list plus one)
+        ("outer-descriptors-long-enough", fd[0].len >= nd.len + 1),
+        ("domain-sizes", And(nd.len + 1 <= 32768, forall(1, lambda j: Implies(And(0 <= j, j < nd.len), nd[j].len <= 32768)))),
+        ("counts-positive", forall(2, lambda j, k: Implies(And(0 <= j, j < nd.len, 0 <= k, k < nd[j].len), nd[j][k].len >= 1))),
+        ("non-degenerate-excess", ForAll([z3.Int("f!"), z3.Real("h!")], EX(z3.Int("f!"), z3.Real("h!")) != 0)),
+        ("known-flow-type", Or(E.flow_type == BOREHOLE_FLOW, E.flow_type == SYSTEM_FLOW)),
+    ]
+    if cap:
+        reqs.append(("smallest-fields-below-cap", forall(1, lambda j: Implies(And(0 <= j, j < nd.len), nd[j][0].len < E.sim_params.max_boreholes))))
+    return reqs
+
+
+def _b2d_contract(variant, cap_shape):
+    clauses, r0_def, _ = SEARCH_CLAUSES[variant]
+    params = dict(self=ObjOf(f"{S}:Bisection2D"), coordinates_domain_nested=Nested, field_descriptors=NestedStr, v_flow=Real,
+                  borehole=Borehole(), bhe_type=Int, fluid=Fluid(), pipe=ObjOf("pipe"), grout=ObjOf("grout"), soil=ObjOf("soil"),
+                  sim_params=SimP(cap_shape), hourly_extraction_ground_loads=OpaqueOf("list"), method=Int, flow_type=Int)
+    names = [n for n, _ in _nested_requires(_Dummy(), variant == "cap")] if False else None
+
+    def env_of(E):
+        class V:
+            pass
+
+        v = V()
+        v.self = E.self
+        v.result = (E.self.selection_key, E.self.selected_coordinates, E._g_search_1)
+        v.old = None
+        return v
+
+    unmet_, ens = clauses(lambda V: V.result[0], lambda V: V.result[2])
+    nreq = len(_nested_requires_names(variant == "cap"))
+    return contract(
+        f"{S}:Bisection2D.__init__", params, name=f"{S}:Bisection2D.__init__#{variant}",
+        requires=[(n, (lambda E, i=i: _nested_requires(E, variant == "cap")[i][1])) for i, n in enumerate(_nested_requires_names(variant == "cap"))],
+        options={"empty_dict_is_intmap": True},
+        loops={0: LoopSpec(invariants=[
+            ("outer-domain", lambda E: And(E.outer_domain.len == E._k0 + 1,
+                                           E.outer_domain[0].id == E.coordinates_domain_nested[0][0].id,
+                                           E.outer_domain[0].len == E.coordinates_domain_nested[0][0].len,
+                                           forall(1, lambda j: Implies(And(0 <= j, j < E._k0),
+                                                                       And(E.outer_domain[j + 1].id == E.coordinates_domain_nested[j][E.coordinates_domain_nested[j].len - 1].id,
+                                                                           E.outer_domain[j + 1].len == E.coordinates_domain_nested[j][E.coordinates_domain_nested[j].len - 1].len))))),
+        ], shapes={"outer_domain": ListOf(Field, minlen=1)})},
+        raises={"ValueError": None},
+        ensures=[("inner-list-is-a-nested-list", lambda E: Or(E.self.coordinates_domain.len >= 1))]
+        + [(n, (lambda E, f=f: f(env_of(E)))) for n, f in ens if n != "search-log-rows-consistent"]
+        + [("window-end", lambda E: r0_def(env_of(E), E._g_search_1))],
+        returns=NoneT(),
+    )
+
+
+def _nested_requires_names(cap):
+    base = ["descriptors-aligned", "outer-descriptors-long-enough", "domain-sizes", "counts-positive", "non-degenerate-excess", "known-flow-type"]
+    return base + (["smallest-fields-below-cap"] if cap else [])
+
+
+class _Dummy:
+    pass
+
+
+_b2d_contract("nocap", NoneT())
+_b2d_contract("cap", Int)
+
+
+# ---- BisectionZD (bi-zoned and polygon-constrained): successive searches over the nested lists ---------------
+from contracts.ghe import CFG3  # noqa: E402
+
+
+def BZD(cap):
+    base = B1(cap, IntMapOf(Real)).fields
+    return ObjOf(f"{S}:BisectionZD", **{**base, "coordinates_domain_nested": Nested, "nested_fieldDescriptors": NestedStr,
+                                        "calculated_temperatures_nested": EmptyMap(IntMapOf(Real)), "calculated_heights": EmptyMap(Real),
+                                        "selection_key_outer": Int})
+
+
+def fid2(E, j, k):
+    return E.self.coordinates_domain_nested[j][k].id
+
+
+def cnt2(E, j, k):
+    return E.self.coordinates_domain_nested[j][k].len
+
+
+def _zd_requires(variant):
+    def nd(E):
+        return E.self.coordinates_domain_nested
+
+    reqs = [
+        ("start-list", lambda E: And(0 <= E.self.selection_key_outer, E.self.selection_key_outer < nd(E).len)),
+        ("descriptors-aligned", lambda E: And(E.self.nested_fieldDescriptors.len == nd(E).len,
+                                              forall(1, lambda j: Implies(And(0 <= j, j < nd(E).len), E.self.nested_fieldDescriptors[j].len == nd(E)[j].len)))),
+        ("domain-sizes", lambda E: forall(1, lambda j: Implies(And(0 <= j, j < nd(E).len), nd(E)[j].len <= 32768))),
+        ("counts-positive", lambda E: forall(2, lambda j, k: Implies(And(0 <= j, j < nd(E).len, 0 <= k, k < nd(E)[j].len), nd(E)[j][k].len >= 1))),
+        ("non-degenerate-excess", lambda E: And(ForAll([z3.Int("f!"), z3.Real("h!")], EX(z3.Int("f!"), z3.Real("h!")) != 0),
+                                                ForAll([z3.Int("c!"), z3.Real("h!")], OBJ(z3.Int("c!"), z3.Real("h!")) != 0))),
+        ("known-flow-type", lambda E: Or(E.self.flow_type == BOREHOLE_FLOW, E.self.flow_type == SYSTEM_FLOW)),
+        ("height-window", lambda E: E.self.sim_params.min_height < E.self.sim_params.max_height),
+        ("log-consistent", lambda E: rows_ok(E, E.self.searchTracker)),
+        ("fresh-tables", lambda E: And(E.self.calculated_heights.n == 0, E.self.calculated_temperatures_nested.n == 0)),
+    ]
+    if variant == "cap":
+        reqs.append(("smallest-fields-below-cap", lambda E: forall(1, lambda j: Implies(And(0 <= j, j < nd(E).len), nd(E)[j][0].len < E.self.sim_params.max_boreholes))))
+    return reqs
+
+
+def _visited_facts(E, heights, tn):
+    """every list with a recorded total drilling has its evaluated table recorded; tables hold oracle values of that list"""
+    nd = E.self.coordinates_domain_nested
+    return And(
+        forall(1, lambda j: Implies(heights.has(j), And(tn.has(j), 0 <= j, j < nd.len)), pats=lambda j: [heights.has(j)]),
+        forall(2, lambda j, k: Implies(And(tn.has(j), tn[j].has(k)),
+                                       And(0 <= j, j < nd.len, 0 <= k, k < nd[j].len, tn[j][k] == EX(fid2(E, j, k), Hmax(E)))),
+               pats=lambda j, k: [tn[j].has(k)]),
+    )
+
+
+def _zd_clauses(o):
+    return [
+            ("chosen-list-visited", lambda E: And(E.self.calculated_heights.has(o(E)), 0 <= o(E), o(E) < E.self.coordinates_domain_nested.len)),
+            ("least-total-drilling-among-visited-lists",
+             lambda E: forall(1, lambda j: Implies(E.self.calculated_heights.has(j), E.self.calculated_heights[o(E)] <= E.self.calculated_heights[j]),
+                              pats=lambda j: [E.self.calculated_heights.has(j)])),
+            ("selection-is-a-candidate-of-the-chosen-list",
+             lambda E: And(0 <= E.result[0], E.result[0] < E.self.coordinates_domain_nested[o(E)].len, E.result[1].id == fid2(E, o(E), E.result[0]))),
+            ("feasible", lambda E: EX(E.result[1].id, Hmax(E)) < 0),
+            ("min-count-among-evaluated-feasible-of-chosen-list",
+             lambda E: Implies(forall(2, lambda a, b: Implies(And(0 <= a, a < b, b < E.self.coordinates_domain_nested[o(E)].len),
+                                                               EX(fid2(E, o(E), a), Hmax(E)) != EX(fid2(E, o(E), b), Hmax(E)))),
+                               forall(1, lambda k: Implies(And(E.self.calculated_temperatures.has(k), E.self.calculated_temperatures[k] < 0),
+                                                           E.result[1].len <= cnt2(E, o(E), k)),
+                                      pats=lambda k: [E.self.calculated_temperatures.has(k)]))),
+            ("sized-ghe-of-the-selection",
+             lambda E: And(E.self.ghe.g_field == E.result[1].id, E.self.ghe.g_H0 == Hmax(E),
+                           Hmin(E) <= E.self.ghe.bhe.b.H, E.self.ghe.bhe.b.H <= Hmax(E))),
+            ("search-log-rows-consistent", lambda E: rows_ok(E, E.self.searchTracker)),
+    ]
+
+
+def _zd_contract(variant, cap_shape):
+    c = contract(
+        f"{S}:BisectionZD.search_successive", dict(self=BZD(cap_shape), max_iter=NoneT()), name=f"{S}:BisectionZD.search_successive#{variant}",
+        requires=_zd_requires(variant),
+        options={"empty_dict_is_intmap": True, "abstract_mul": True},
+        loops={0: LoopSpec(
+            invariants=[
+                ("position", lambda E: And(E.self.selection_key_outer <= E.i, E.i <= E.self.coordinates_domain_nested.len)),
+                ("visited", lambda E: _visited_facts(E, E.self.calculated_heights, E.self.calculated_temperatures_nested)),
+                ("visited-before-i", lambda E: forall(1, lambda j: Implies(E.self.calculated_heights.has(j), j < E.i), pats=lambda j: [E.self.calculated_heights.has(j)])),
+                ("log-consistent", lambda E: rows_ok(E, E.self.searchTracker)),
+            ],
+            shapes={"self.calculated_temperatures_nested": IntMapOf(IntMapOf(Real)), "self.calculated_heights": IntMapOf(Real),
+                    "selection_key": Int, "selected_coordinates": Field},
+        )},
+        raises={"ValueError": None},
+        ensures=_zd_clauses(lambda E: E.selection_key_outer),
+        ensures_caller=_zd_clauses(lambda E: E.result[2]),
+        assigns=[(lambda P: (P.self, "ghe"), GHEfresh()), (lambda P: (P.self, "searchTracker"), ListOf(Row)),
+                 (lambda P: (P.self, "calculated_temperatures"), IntMapOf(Real)), (lambda P: (P.self, "coordinates_domain"), ListOf(Field, minlen=1)),
+                 (lambda P: (P.self, "fieldDescriptors"), ListOf(Str)), (lambda P: (P.self, "calculated_heights"), IntMapOf(Real)),
+                 (lambda P: (P.self, "calculated_temperatures_nested"), IntMapOf(IntMapOf(Real)))],
+        returns=TupleOf(Int, Field, Int),
+    )
+    c.ghost_results = 1
+    c.applies = lambda env: (env["self"].fields["sim_params"].fields["max_boreholes"] is None) == (variant == "nocap")
+    return c
+
+
+_zd_contract("nocap", NoneT())
+_zd_contract("cap", Int)
+
+
+# ---- run-time form of search_successive: real method, table-driven oracle and sizing -------------------------
+def make_zd(lists, outer, cap=None, cont_flag=False):
+    """lists: [{'counts': [...], 'ex_max': [...], 'ex_min0': x, 'size': [...]}]; size[k] = height the sizing returns for field k"""
+    from ghedesigner.search_routines import BisectionZD
+    from ghedesigner.simulation import SimulationParameters
+
+    b = object.__new__(BisectionZD)
+    b.coordinates_domain_nested = [[[(float(j), float(k), float(i)) for i in range(c)] for k, c in enumerate(L["counts"])] for j, L in enumerate(lists)]
+    b.nested_fieldDescriptors = [[f"L{j}f{k}" for k in range(len(L["counts"]))] for j, L in enumerate(lists)]
+    b.sim_params = SimulationParameters(1, 12, 35.0, 5.0, HMAX, HMIN, max_boreholes=cap, continue_if_design_unmet=cont_flag)
+    b.calculated_temperatures = {}
+    b.calculated_temperatures_nested = {}
+    b.calculated_heights = {}
+    b.selection_key_outer = outer
+    b.max_iter = 15
+    b.disp = False
+    b.searchTracker = []
+    b.log = []
+    b.state = None
+
+    def locate(coords):
+        for j, L in enumerate(b.coordinates_domain_nested):
+            for k, c in enumerate(L):
+                if c is coords:
+                    return j, k
+        raise AssertionError("coordinates are not a candidate of any list")
+
+    class _B:
+        H = None
+
+    class _Bhe:
+        b = _B()
+
+    class FakeGHE:
+        def __init__(self, j, k, h):
+            self.where, self.bhe = (j, k), _Bhe()
+            self.bhe.b = _B()
+            self.bhe.b.H = h
+            self.sized = False
+
+        def compute_g_functions(self):
+            pass
+
+        def size(self, method=None):
+            j, k = self.where
+            self.bhe.b.H = lists[j]["size"][k]
+            self.sized = True
+
+    def ex_table(j, k, h):
+        if h == HMAX:
+            return lists[j]["ex_max"][k]
+        if h == HMIN and k == 0:
+            return lists[j]["ex_min0"]
+        raise AssertionError(f"unexpected oracle query {(j, k, h)}")
+
+    def calculate_excess(coords, h, field_specifier="N/A"):
+        j, k = locate(coords)
+        b.log.append((j, k, h))
+        b.ghe = FakeGHE(j, k, h)
+        t = ex_table(j, k, h)
+        b.searchTracker.append([field_specifier, t, 0.0, 0.0])
+        return t
+
+    def initialize_ghe(coords, h, field_specifier="N/A"):
+        j, k = locate(coords)
+        b.ghe = FakeGHE(j, k, h)
+
+    b.calculate_excess = calculate_excess
+    b.initialize_ghe = initialize_ghe
+    return b
+
+
+def _zd_check(args):
+    lists, outer = args["lists"], args["outer"]
+    b = make_zd(lists, outer, args.get("cap"), args.get("cont", False))
+    try:
+        key, coords = b.search_successive()
+    except ValueError:
+        return True, {"outcome": "ValueError"}
+    except Exception as e:
+        return False, {"why": f"raised {type(e).__name__}: {e}"}
+    o = None
+    for j, L in enumerate(b.coordinates_domain_nested):
+        for k, c in enumerate(L):
+            if c is coords:
+                o = (j, k)
+    if o is None or o[1] != key:
+        return False, {"why": "returned coordinates are not the candidate with the returned key"}
+    j0, k0 = o
+    if not lists[j0]["ex_max"][k0] < 0:
+        return False, {"why": f"returned candidate {o} is infeasible at max height"}
+    if b.ghe.where != o or not b.ghe.sized or not HMIN <= b.ghe.bhe.b.H <= HMAX:
+        return False, {"why": f"ghe left at {b.ghe.where} sized={b.ghe.sized} H={b.ghe.bhe.b.H}"}
+    total = len(coords) * b.ghe.bhe.b.H
+    # C05: the returned total drilling never exceeds count x max height of any candidate the search evaluated feasible
+    for j, table in b.calculated_temperatures_nested.items():
+        for k, v in table.items():
+            if v != lists[j]["ex_max"][k]:
+                return False, {"why": "recorded excess is not the oracle value"}
+            if v < 0 and total > lists[j]["counts"][k] * HMAX + 1e-9:
+                return False, {"why": f"returned {len(coords)} boreholes x {b.ghe.bhe.b.H} m = {total} m exceeds evaluated feasible candidate {(j, k)}: {lists[j]['counts'][k]} x {HMAX}",
+                               "returned": list(o)}
+            if j == j0 and v < 0 and len(coords) > lists[j]["counts"][k]:
+                return False, {"why": f"evaluated feasible candidate {(j, k)} of the chosen list has fewer boreholes ({lists[j]['counts'][k]}) than the returned one ({len(coords)})",
+                               "returned": list(o)}
+    for j, h in b.calculated_heights.items():
+        if b.calculated_heights[j0] > h:
+            return False, {"why": "chosen list does not have the least total drilling among the visited lists"}
+    return True, {}
+
+
+def _zd_gen(rng):
+    nl = rng.randint(1, 5)
+    lists = []
+    for _ in range(nl):
+        n = rng.choice([2, 3, 5, 9, 12, 20])
+        if rng.random() < 0.5:
+            t = rng.randint(1, n - 1)
+            signs = [1] * t + [-1] * (n - t)
+        else:
+            signs = [1] + [rng.choice([-1, 1]) for _ in range(n - 2)] + [-1]
+        ex_max = distinct_values(rng, n, signs)
+        counts = [1] + (sorted(rng.sample(range(2, 6 * n), n - 1)) if rng.random() < 0.5 else [rng.randint(2, 6 * n) for _ in range(n - 1)])
+        size = [round(rng.uniform(HMIN, HMAX), 1) for _ in range(n)]
+        lists.append({"counts": counts, "ex_max": ex_max, "ex_min0": abs(ex_max[0]) + 1.0, "size": size})
+    return {"lists": lists, "outer": rng.randrange(nl)}
+
+
+for _v in ("nocap", "cap"):
+    native(f"{S}:BisectionZD.search_successive#{_v}", _zd_check, _zd_gen, None,
+           bound="oracle-stubbed real search_successive(): 1..5 lists of 2..20 candidates, monotone and arbitrary sign patterns (first infeasible, last feasible), monotone and non-monotone counts, table-driven sizing")
+
+
+def _bzd_init_contract(variant, cap_shape):
+    params = dict(self=ObjOf(f"{S}:BisectionZD"), coordinates_domain_nested=Nested, field_descriptors=NestedStr, v_flow=Real,
+                  borehole=Borehole(), bhe_type=Int, fluid=Fluid(), pipe=ObjOf("pipe"), grout=ObjOf("grout"), soil=ObjOf("soil"),
+                  sim_params=SimP(cap_shape), hourly_extraction_ground_loads=OpaqueOf("list"), method=Int, flow_type=Int)
+
+    def reqs(E):
+        r = dict(_nested_requires(E, variant == "cap"))
+        nd = E.coordinates_domain_nested
+        r.pop("outer-descriptors-long-enough")
+        r["descriptors-non-empty"] = forall(1, lambda j: Implies(And(0 <= j, j < nd.len), E.field_descriptors[j].len >= 1))
+        r["non-degenerate-objective"] = ForAll([z3.Int("c!"), z3.Real("h!")], OBJ(z3.Int("c!"), z3.Real("h!")) != 0)
+        r["height-window"] = E.sim_params.min_height < E.sim_params.max_height
+        return r
+
+    names = ["descriptors-aligned", "domain-sizes", "counts-positive", "non-degenerate-excess", "known-flow-type",
+             "descriptors-non-empty", "non-degenerate-objective", "height-window"] + (["smallest-fields-below-cap"] if variant == "cap" else [])
+    return contract(
+        f"{S}:BisectionZD.__init__", params, name=f"{S}:BisectionZD.__init__#{variant}",
+        requires=[(n, (lambda E, n=n: reqs(E)[n])) for n in names],
+        options={"empty_dict_is_intmap": True},
+        loops={0: LoopSpec(invariants=[
+            ("outer-domain", lambda E: And(E.outer_domain.len == E._k0 + 1, E.outer_descriptors.len == E._k0 + 1,
+                                           E.outer_domain[0].id == E.coordinates_domain_nested[0][0].id,
+                                           E.outer_domain[0].len == E.coordinates_domain_nested[0][0].len,
+                                           forall(1, lambda j: Implies(And(0 <= j, j < E._k0),
+                                                                       And(E.outer_domain[j + 1].id == E.coordinates_domain_nested[j][E.coordinates_domain_nested[j].len - 1].id,
+                                                                           E.outer_domain[j + 1].len == E.coordinates_domain_nested[j][E.coordinates_domain_nested[j].len - 1].len))))),
+        ], shapes={"outer_domain": ListOf(Field, minlen=1), "outer_descriptors": ListOf(Str, minlen=1)})},
+        raises={"ValueError": None},
+        ensures=[("feasible", lambda E: EX(E.self.selected_coordinates.id, E.sim_params.max_height) < 0),
+                 ("sized-ghe-of-the-selection", lambda E: And(E.self.ghe.g_field == E.self.selected_coordinates.id, E.self.ghe.g_H0 == E.sim_params.max_height,
+                                                              E.sim_params.min_height <= E.self.ghe.bhe.b.H, E.self.ghe.bhe.b.H <= E.sim_params.max_height)),
+                 ("search-log-rows-consistent", lambda E: rows_ok(E, E.self.searchTracker))],
+        returns=NoneT(),
+    )
+
+
+_bzd_init_contract("nocap", NoneT())
+_bzd_init_contract("cap", Int)
+
+
+# ---- Design*.find_design (construct the search object) and GHEManager.find_design ----------------------------
+D = "ghedesigner.design"
+
+
+def DesignObj(cls, cap_shape, domain_shape, descr_shape):
+    return ObjOf(f"{D}:{cls}", V_flow=Real, borehole=Borehole(), bhe_type=Int, fluid=Fluid(), pipe=ObjOf("pipe"), grout=ObjOf("grout"),
+                 soil=ObjOf("soil"), sim_params=SimP(cap_shape), hourly_extraction_ground_loads=OpaqueOf("list"), method=Int, flow_type=Int,
+                 load_years=OpaqueOf("list"), coordinates_domain=domain_shape, fieldDescriptors=descr_shape,
+                 coordinates_domain_nested=Nested, geometric_constraints=ObjOf("gc"))
+
+
+def _as_init_env(E):
+    """Design fields seen under the parameter names of Bisection1D.__init__"""
+    class V:
+        pass
+
+    v = V()
+    s = E.self
+    v.coordinates_domain, v.field_descriptors, v.sim_params, v.flow_type = s.coordinates_domain, s.fieldDescriptors, s.sim_params, s.flow_type
+    return v
+
+
+def _design1d_contract(cls, variant, cap_shape):
+    clauses, r0_def, _ = SEARCH_CLAUSES[variant]
+
+    def senv(E):
+        class V:
+            pass
+
+        v = V()
+        v.self = E.result
+        v.result = (E.result.selection_key, E.result.selected_coordinates, R0)
+        v.old = None
+        return v
+
+    unmet_, ens = clauses(lambda V: V.result[0], lambda V: R0)
+    c = contract(
+        f"{D}:{cls}.find_design", dict(self=DesignObj(cls, cap_shape, ListOf(Field, minlen=1), ListOf(Str))), name=f"{D}:{cls}.find_design#{variant}",
+        requires=[(n, (lambda E, f=f: f(_as_init_env(E)))) for n, f in _init_requires(variant)],
+        defs=[("R0", lambda E: r0_def(_dom_view(_as_init_env(E)), R0))],
+        raises={"ValueError": lambda E: And(Not(E.self.sim_params.continue_if_design_unmet), unmet_(_dom_view(_as_init_env(E))))},
+        ensures=[(n, (lambda E, f=f: f(senv(E)))) for n, f in ens]
+        + [("searched-the-design-domain", lambda E: And(E.result.coordinates_domain.len == E.self.coordinates_domain.len,
+                                                       E.result.sim_params.max_height == E.self.sim_params.max_height,
+                                                       E.result.sim_params.min_height == E.self.sim_params.min_height))],
+        returns=ObjOf(f"{S}:Bisection1D", coordinates_domain=AliasOf(lambda P: P.self.fields["coordinates_domain"]),
+                      fieldDescriptors=AliasOf(lambda P: P.self.fields["fieldDescriptors"]), sim_params=AliasOf(lambda P: P.self.fields["sim_params"]),
+                      ghe=GHEs(sim=AliasOf(lambda P: P.self.fields["sim_params"]), borehole=AliasOf(lambda P: P.self.fields["borehole"]),
+                               fluid=AliasOf(lambda P: P.self.fields["fluid"])),
+                      selection_key=Int, selected_coordinates=Field, calculated_temperatures=IntMapOf(Real), searchTracker=ListOf(Row),
+                      V_flow=AliasOf(lambda P: P.self.fields["V_flow"]), flow_type=AliasOf(lambda P: P.self.fields["flow_type"]),
+                      max_iter=Const(15), disp=Const(False)),
+    )
+    c.applies = lambda env: (env["self"].fields["sim_params"].fields["max_boreholes"] is None) == (variant == "nocap")
+    return c
+
+
+for _cls in ("DesignNearSquare", "DesignRectangle"):
+    for _v, _cs in (("nocap", NoneT()), ("cap", Int)):
+        _design1d_contract(_cls, _v, _cs)
+
+
+M_ = "ghedesigner.manager"
+
+
+def _manager_contract(cls, variant, cap_shape):
+    from contracts.utilities import _near_sign_change
+
+    clauses, r0_def, _ = SEARCH_CLAUSES[variant]
+    design = DesignObj(cls, cap_shape, ListOf(Field, minlen=1), ListOf(Str))
+
+    def denv(E):
+        class V:
+            pass
+
+        v = V()
+        v.self = E.self._design
+        return v
+
+    def ienv(E):
+        return _as_init_env(denv(E))
+
+    def dom(E):
+        return E.self._design.coordinates_domain
+
+    def sp(E):
+        return E.self._design.sim_params
+
+    def cfg1(E, field, h):
+        d = E.self._design
+        rb, Dp = d.borehole.r_b, d.borehole.D
+        vsys, mflow = flow_spec(d.flow_type, d.V_flow, field.len, d.fluid.rho)
+        b = SPACING(field.id, rb)
+        return GHECFG(GFK(b, h, rb, Dp, mflow, field.id), vsys, b, h)
+
+    def hyps(E):
+        n = dom(E).len
+        hmin, hmax = sp(E).min_height, sp(E).max_height
+        return And(
+            # DEF-EX: the abstract oracle EX(field, h) is the excess of the GHE that initialize_ghe(field, h) builds, simulated at h
+            forall(1, lambda k: Implies(And(0 <= k, k < n), And(EX(dom(E)[k].id, hmax) == OBJ(cfg1(E, dom(E)[k], hmax), hmax),
+                                                                EX(dom(E)[k].id, hmin) == OBJ(cfg1(E, dom(E)[k], hmin), hmin)))),
+            # A-NODE: evaluating the three-height g-function family at a stored height gives the single-height result
+            forall(1, lambda k: Implies(And(0 <= k, k < n), OBJ(CFG3(cfg1(E, dom(E)[k], hmax)), hmax) == OBJ(cfg1(E, dom(E)[k], hmax), hmax))),
+            # A-HMONO: a configuration that is feasible at the minimum height is feasible at the maximum height
+            ForAll([z3.Int("c!")], Implies(OBJ(z3.Int("c!"), hmin) < 0, OBJ(z3.Int("c!"), hmax) < 0)),
+            forall(1, lambda k: Implies(And(0 <= k, k < n, EX(dom(E)[k].id, hmin) < 0), EX(dom(E)[k].id, hmax) < 0)),
+        )
+
+    unmet_, _ens = clauses(lambda V: V.result[0], lambda V: R0)
+
+    def escape(E):
+        return And(sp(E).continue_if_design_unmet, unmet_(_dom_view(ienv(E))))
+
+    def g(E):
+        return E.self._search.ghe
+
+    tol = R("1/1000000")
+    c = contract(
+        f"{M_}:GHEManager.find_design",
+        dict(self=ObjOf(f"{M_}:GHEManager", _fluid=ObjOf("x"), _grout=ObjOf("x"), _soil=ObjOf("x"), _pipe=ObjOf("x"), _borehole=ObjOf("x"),
+                        _simulation_parameters=ObjOf("x"), _ground_loads=ListOf(Real, minlen=1), _geometric_constraints=ObjOf("x"), _design=design),
+             throw=Const(True)),
+        name=f"{M_}:GHEManager.find_design#{cls}-{variant}",
+        requires=[(n, (lambda E, f=f: f(ienv(E)))) for n, f in _init_requires(variant)]
+        + [("height-window", lambda E: sp(E).min_height < sp(E).max_height),
+           ("non-degenerate-objective", lambda E: ForAll([z3.Int("c!"), z3.Real("h!")], OBJ(z3.Int("c!"), z3.Real("h!")) != 0))],
+        defs=[("R0", lambda E: r0_def(_dom_view(ienv(E)), R0))],
+        raises={"ValueError": lambda E: And(Not(sp(E).continue_if_design_unmet), unmet_(_dom_view(ienv(E))))},
+        ensures=[
+            ("height-within-bounds", lambda E: And(sp(E).min_height <= g(E).bhe.b.H, g(E).bhe.b.H <= sp(E).max_height)),
+            ("returned-design-meets-limits",
+             lambda E: Implies(And(Not(escape(E)), hyps(E)),
+                               And(OBJ(g(E).g_cfg, sp(E).max_height) < 0,
+                                   Implies(OBJ(g(E).g_cfg, sp(E).min_height) < 0, g(E).bhe.b.H == sp(E).min_height),
+                                   Implies(OBJ(g(E).g_cfg, sp(E).min_height) > 0,
+                                           _near_sign_change(lambda h: OBJ(g(E).g_cfg, h), g(E).bhe.b.H, sp(E).min_height, sp(E).max_height, tol, tol))))),
+            ("policy-too-large-loads", lambda E: Implies(And(escape(E), A(_dom_view(ienv(E))) > 0, hyps(E), nondecreasing_counts(_dom_view(ienv(E)))),
+                                                         And(E.self._search.selection_key == R0, g(E).bhe.b.H == sp(E).max_height))),
+            ("policy-too-small-loads", lambda E: Implies(And(escape(E), A(_dom_view(ienv(E))) < 0), E.self._search.selection_key == 0)),
+        ],
+        returns=Int,
+    )
+    c.applies = lambda env: False  # never used at call sites
+    return c
+
+
+for _cls in ("DesignNearSquare", "DesignRectangle"):
+    for _v, _cs in (("nocap", NoneT()), ("cap", Int)):
+        _manager_contract(_cls, _v, _cs)
+
+
+# ---- lemma: near a sign change + Lipschitz => within the sizing tolerance (C01 / C05 "root" clause) ------------
+def lemma_root_within_tolerance():
+    H, p, q, fH, fp, fq, L = z3.Reals("H p q fH fp fq L")
+    tol = R("1/1000000")
+    delta = 4 * (tol + tol * H)
+    hyp = [H > 0, H <= 400, L == R("1/2"),
+           p - H <= delta, H - p <= delta, q - H <= delta, H - q <= delta, fp <= 0, fq >= 0,
+           # A-LIP on the bracket: |f(H) - f(x)| <= L |H - x|
+           fH - fp <= L * delta, fp - fH <= L * delta, fH - fq <= L * delta, fq - fH <= L * delta]
+    return hyp, And(fH <= R("1/1000"), fH >= -R("1/1000"))
+
+
+LEMMAS = [("root-within-sizing-tolerance", lemma_root_within_tolerance)]
